@@ -162,3 +162,46 @@ def pipeline(c, nflow, npar, nscen, seed_off=0, par_exec=0, race=False, progs=No
         c.violation(prop, "%s (program %s, execution %s, event %s)" % (what, job["prog"] if job else "?", ex, stamp),
                     dict(kind="gen-exec", program=byname.get(job["prog"]) if job else None, job=job, mode=mode))
     return nexec
+
+
+# ------------------------------------------------------------------ generator-level helpers
+import hashlib, glob
+
+
+def snapshot(root):
+    """sha256 of every regular file under root."""
+    out = {}
+    for dp, dn, fn in os.walk(root):
+        for f in fn:
+            p = os.path.join(dp, f)
+            with open(p, "rb") as fh:
+                out[os.path.relpath(p, root)] = hashlib.sha256(fh.read()).hexdigest()
+    return out
+
+
+def src_files(root, pkg):
+    d = os.path.join(root, pkg)
+    return sorted(f for f in os.listdir(d) if f.endswith(".go") and f != "reg.go" and not f.endswith("_gen.go"))
+
+
+def gen_name(f):
+    return f[:-8] + "_gen_test.go" if f.endswith("_test.go") else f[:-3] + "_gen.go"
+
+
+def gendiff(c, tool, root, pkg):
+    args = []
+    for f in src_files(root, pkg):
+        g = os.path.join(root, pkg, gen_name(f))
+        if os.path.exists(g):
+            args += [os.path.join(root, pkg, f), g]
+    r = subprocess.run([tool] + args, capture_output=True, text=True, timeout=600)
+    if r.returncode != 0:
+        raise Inconclusive("gendiff failed: " + r.stderr[-500:])
+    return json.loads(r.stdout)
+
+
+def typecheck(c, root, tags=None):
+    """Type-checks the module without the cff tag (go vet runs the type checker on every package)."""
+    cmd = ["go", "build"] + (["-tags", tags] if tags else []) + ["./..."]
+    r = subprocess.run(cmd, cwd=root, env=GOENV, capture_output=True, text=True, timeout=900)
+    return r.returncode == 0, (r.stdout + r.stderr)[-3000:]
